@@ -4,3 +4,7 @@
 #![allow(dead_code)]
 pub mod common;
 pub mod sign;
+pub mod embed_common;
+pub mod embed_lex2;
+pub mod embed_lex3;
+pub mod embed_oracle;
